@@ -57,6 +57,7 @@ func main() {
 		fs.IntVar(&o.shards, "shards", 1, "")
 		fs.IntVar(&o.from, "from", 0, "")
 		fs.IntVar(&o.only, "only", -1, "")
+		fs.IntVar(&o.upto, "upto", -1, "")
 		fs.StringVar(&o.out, "out", "/tmp/vrun-worker", "")
 		fs.BoolVar(&o.verbose, "v", false, "")
 		fs.Parse(os.Args[2:])
